@@ -404,6 +404,7 @@ impl Search {
         match e {
             Ev::Timer => "timer".to_string(),
             Ev::Batch(k) => format!("batch:{}", k),
+            Ev::Digest(k) => format!("digest:{}", k),
             Ev::Deliver(m) => crate::util::hex(&self.uni.msg(*m).bytes),
         }
     }
@@ -413,6 +414,7 @@ impl Search {
             Ev::Deliver(m) => format!("deliver {}", self.uni.msg(*m).desc),
             Ev::Timer => "timer expires".into(),
             Ev::Batch(k) => format!("batch {} arrives in the store", k),
+            Ev::Digest(k) => format!("own mempool hands digest {} to the proposer", k),
         }
     }
 
